@@ -1,0 +1,18 @@
+//go:build verif
+
+// Write-ordering contracts for crash durability (property C03); only compiled with -tags verif.
+// `order L: A before B` is checked at the typestate level (control flow only): every execution of event B is preceded,
+// on every path, by an execution of event A that returned a nil error.
+package ahtree
+
+// The hash-tree commit log is (re)written only after the payload and digest logs are flushed and fsynced; the synced
+// frontier moves only after the commit log itself is flushed and fsynced.
+//@ func (*AHtree).sync
+//@   order plog_flushed_before_sync: t.pLog.Flush before t.pLog.Sync
+//@   order dlog_flushed_before_sync: t.dLog.Flush before t.dLog.Sync
+//@   order plog_synced_before_clog_rewind: t.pLog.Sync before t.cLog.SetOffset
+//@   order dlog_synced_before_clog_rewind: t.dLog.Sync before t.cLog.SetOffset
+//@   order plog_synced_before_clog_append: t.pLog.Sync before t.cLog.Append
+//@   order dlog_synced_before_clog_append: t.dLog.Sync before t.cLog.Append
+//@   order clog_flushed_before_sync: t.cLog.Flush before t.cLog.Sync
+//@   order clog_synced_before_frontier: t.cLog.Sync before store t.latestSyncedNode
